@@ -4,9 +4,18 @@ import json, subprocess, sys
 
 CHECKS = {
  # id: (level, engine, technique, text, note, design_ref)
+ "C01": ("exploration", "E2-programs", "bounded exhaustive input enumeration through the whole pipeline under a panic guard and a process supervisor",
+         "All byte strings of length 1-2 (3), all stack-pruned sequences up to length 4 (5) over 48 hostile tokens, every assignment of boundary constants to the operands of 28 multi-operand opcodes, 16 pipeline templates x B x B and every prefix of the smallest shipped contracts go through analyze() and through the staged API in up to 3 configurations; panics are caught in-process, aborts and hangs are attributed to a case by re-running unfinished chunks one case at a time in a child process.",
+         "inputs beyond ~40 bytes only through corpus prefixes; scale effects (native stack on 24 KiB contracts) not reached", "3/C01"),
  "C03": ("exploration", "E2-programs", "bounded exhaustive program enumeration x configuration grid on the real VM, plus single-deviation schedule exploration for type-checker termination",
          "All control-flow token sequences up to length 6 (7) crossed with a grid of iteration / fork / gas limits are executed by the real VM under a step-budget watchdog and every stored state is checked against the four stated bounds; all stack-safe storage read-mask-write sequences up to length 6 (7) are analysed under the canonical order and under every single deviation at the unification order points to decide termination of the whole pipeline.",
          "limits above 3 not crossed with the program space; halting decided by a poll budget (20 000 polls for <= 30-byte programs) plus the supervisor's wall-clock stall detection", "3/C03"),
+ "C04": ("exploration", "E2-programs", "bounded exhaustive enumeration of ground-truth layouts compiled to solc-idiom bytecode",
+         "Every single variable of every listed kind (incl. mappings of depth 1-4 over all key-kind vectors and all 496 (206 367 thorough) byte-boundary splits of a packed word) at 6 slots x 3 access modes x 4 spellings, and all ordered pairs (triples) of 7 representative kinds, are generated from a ground-truth layout, analysed by the real pipeline and the layout is compared with the ground truth.",
+         "idiom templates transcribed from shipped solc output; 1-2 (3) variables instead of 1-12", "3/C04"),
+ "C05": ("exploration", "E2-programs", "bounded exhaustive program enumeration with look-alike hashing; over-approximated attribution oracle",
+         "All stack-safe sequences up to length 5 (6) over 16 tokens mixing look-alike keccak computations with real storage accesses: storage-free programs must give an empty layout and every slot of a mixed program must lie in the over-approximated closure of constants found in key sub-trees of executed storage accesses.",
+         "attribution set is an over-approximation (check can only under-report); value-side lifting is a recorded known finding", "3/C05"),
  "C06": ("exploration", "E2-programs", "bounded exhaustive program enumeration with literal storage keys from a boundary set",
          "All token sequences up to length 4 (5) over literal-key reads/writes for 10 boundary keys plus control-flow and stack context tokens; whenever the tool executed such an access (and the reference EVM says it does not fault) and the analysis succeeds, the layout must contain an entry at exactly that 256-bit index.",
          "premise partly taken from the tool (executed offsets) so that exploration defects (C08) cannot raise a C06 alarm", "3/C06"),
@@ -22,6 +31,12 @@ CHECKS = {
  "C09": ("exploration", "E1-flat", "bounded exhaustive enumeration of expression trees against a reference folder",
          "Every tree of the stated grammar (operators x boundary operand pairs; all trees to depth 3, wrapped and unwrapped) is folded by the real constant folder and compared structurally with a reference folder written on the harness's own tree type with independent 256-bit arithmetic; idempotence, size bookkeeping and totality are checked on each. Complete within the grammar, which contains every one-operator mistake (wrong constructor, wrong operand order, wrong boundary rule).",
          "trusts ref_u256 (cross-checked against Python big integers at setup) and the crate's PartialEq on values; says nothing about operands outside the boundary set", "3/C09"),
+ "C11": ("exploration", "E2-programs", "exhaustive pairwise composition and renumbering of a fragment family (relational check on the real pipeline)",
+         "All ordered pairs of a 48-fragment (thorough: 102) family x 3 dispatcher shapes x 2 slot assignments are analysed separately and combined, and two-fragment programs under all 30 injective slot renumberings: the combined layout must be the union, the renumbered layout the renumbered original.",
+         "fragments come from the C04 generator plus 6 hand-written multi-evidence fragments", "3/C11"),
+ "C12": ("exploration", "E2-programs", "bounded exhaustive enumeration of mask-and-shift programs with boundary shift amounts; structural oracle on every returned layout",
+         "All stack-safe sequences up to length 4 (5) over 37 mask / shift / divide / multiply tokens with shift amounts 0..2^64-1 and 16 pipeline templates x B x B: every returned layout must be ordered by (slot, offset) with every entry starting and, when its width is known, ending inside the 256-bit slot.",
+         "width table for types with a known width; residual nested-sub-word programs are a recorded known finding", "3/C12"),
  "C13": ("fault_enumeration", "E5-interruption", "exhaustive enumeration of interruption points (every poll index of every listed run) with a counting watchdog",
          "For 33 programs that spend their time in each polled loop x 6 poll intervals, the poll count P of an uninterrupted run is measured and every k in 0..=P is used as the point from which the watchdog answers stop; the result must be a stopped-by-watchdog error and never a layout. Stage-level poll counts are compared with independently measured work.",
          "runs use the canonical iteration order so that poll indices denote execution points; SimpleContract is stratified in the quick tier", "3/C13"),
